@@ -6,7 +6,7 @@ import lib
 ID = "C15"
 PROP_FILE = "props/C15.v"
 COQ_TARGETS = ["props/C15.v"]
-THEOREMS = ["C15_result_partial", "C15_result_refuted", "C15_raises", "C15_clean"]
+THEOREMS = ["C15_result_partial", "C15_result_passthrough", "C15_result_refuted", "C15_raises", "C15_clean"]
 TRUSTED_BASE = [
     "Coq 8.16.1 kernel, vm_compute for the in-coqc correspondence",
     "model/Sandbox.v: hand transcription of the scaffold of tracer.exec; the spliced program is abstracted as its sequence of local/global "
@@ -20,15 +20,22 @@ ASSUMPTIONS = [
 # ordinary identifiers of every shape: underscore-prefixed, dunder-prefixed, upper-case, with digits, non-ASCII
 NAMES = {i: n for i, n in enumerate(["a", "b", "_c", "_d1", "e", "F", "__g", "h2", "_", "\u00e9t"], start=10)}
 GNAMES = {i: n for i, n in enumerate(["g1", "_g2", "G3"], start=20)}
+# keys of a supplied mapping that cannot be parameter names (the program cannot mention them either)
+XNAMES = {i: n for i, n in enumerate(["class", "a b", "None", "__debug__"], start=30)}
 
 
 def gen_case(rng, reserved=False):
     L = {NAMES[k]: rng.randrange(0, 50) for k in rng.sample(sorted(NAMES), rng.randrange(0, 4))}
     G = {GNAMES[k]: rng.randrange(50, 99) for k in rng.sample(sorted(GNAMES), rng.randrange(0, 3))}
     gdecl = [GNAMES[k] for k in sorted(GNAMES) if rng.random() < 0.4]
-    local_names = [n for n in NAMES.values()]
+    if rng.random() < 0.3:
+        # `global <a supplied local name>` (with the default mappings, locals is globals, this is every existing global): the local is handed back unchanged
+        gdecl += [n for n in sorted(L) if rng.random() < 0.5]
+    local_names = [n for n in NAMES.values() if n not in gdecl]
+    if rng.random() < 0.25:
+        L.update({XNAMES[k]: rng.randrange(0, 50) for k in rng.sample(sorted(XNAMES), rng.randrange(1, 3))})
     ops, lines = [], []
-    bound = set(L)
+    bound = {n for n in L if n not in gdecl and n not in XNAMES.values()}
     nops = rng.randrange(0, 7)
     raise_at = rng.randrange(0, nops + 1) if rng.random() < 0.25 else None
     for i in range(nops):
@@ -63,9 +70,10 @@ def gen_case(rng, reserved=False):
         lines.append("builtins = 5")
     text = ("global %s\n" % ", ".join(gdecl) if gdecl else "") + "\n".join(lines)
     expr = None
-    if rng.random() < 0.4 and L:
-        expr = " + ".join(rng.sample(sorted(L), min(len(L), 2)) + [str(rng.randrange(9))])
-    return {"L": L, "G": G, "text": text or "pass", "ops": ops, "raise_at": raise_at, "instrument": rng.random() < 0.7,
+    ids = [n for n in sorted(L) if n not in XNAMES.values()]
+    if rng.random() < 0.4 and ids:
+        expr = " + ".join(rng.sample(ids, min(len(ids), 2)) + [str(rng.randrange(9))])
+    return {"L": L, "G": G, "text": text or "pass", "ops": ops, "raise_at": raise_at, "instrument": rng.random() < 0.7, "gdecl": gdecl,
             "tracer": rng.choice(["obs", "obs", "noop"]), "expr": expr, "reserved": reserved}
 
 
@@ -91,7 +99,7 @@ def eval_ops(c):
     return out
 
 
-INV = {v: k for k, v in list(NAMES.items()) + list(GNAMES.items())}
+INV = {v: k for k, v in list(NAMES.items()) + list(GNAMES.items()) + list(XNAMES.items())}
 
 
 def coq_assoc(d):
@@ -113,11 +121,12 @@ def coq_cases_file(cases):
         if c.get("reserved"):
             ops.append("Bind 1%N 5%Z")
         ra = "None" if c["raise_at"] is None else "(Some %d%%nat)" % c["raise_at"]
-        L.append("Eval vm_compute in exec_model %s %s {| ops := [%s]; raises_after := %s |}." % (coq_assoc(c["L"]), coq_assoc(c["G"]), "; ".join(ops), ra))
+        L.append("Eval vm_compute in exec_model %s %s {| ops := [%s]; raises_after := %s; gdecl := [%s] |}."
+                 % (coq_assoc(c["L"]), coq_assoc(c["G"]), "; ".join(ops), ra, "; ".join("%d%%N" % INV[n] for n in c.get("gdecl", []))))
     return "\n".join(L) + "\n"
 
 
-NAME_OF = dict(list(NAMES.items()) + list(GNAMES.items()) + [(0, "__"), (1, "builtins"), (2, "_X5ix_pyccolo_local_env"), (3, "_X5ix_pyccolo_sandbox")])
+NAME_OF = dict(list(NAMES.items()) + list(GNAMES.items()) + list(XNAMES.items()) + [(0, "__"), (1, "builtins"), (2, "_X5ix_pyccolo_local_env"), (3, "_X5ix_pyccolo_sandbox")])
 
 
 def model_view(v):
@@ -215,12 +224,15 @@ def run(ctx, model_ok):
             ctx.tie_broken("correspondence", "model/Sandbox.v and tracer.exec disagree on %d of %d cases" % (len(mism), len(cases)), json.dumps(mism[0])[:3000])
     return {
         "evaluations": len(cases), "distinct_nontrivial": len({lib.digest(c) for c in cases if len(c["ops"]) >= 2}),
-        "rule": "straight-line programs (<=6 bindings / deletions / global bindings over 10 local and 3 global names (plain, underscore- and dunder-prefixed, upper-case, `_`, non-ASCII), optional raise at a random "
+        "rule": "straight-line programs (<=6 bindings / deletions / global bindings over 10 local and 3 global names (plain, underscore- and dunder-prefixed, upper-case, `_`, non-ASCII); in 30% `global` also "
+                "names supplied locals, in 25% the supplied mapping has keys that cannot be parameters ('class', 'a b', 'None', '__debug__'); optional raise at a random "
                 "position) x supplied local and global mappings x {instrumented under an observing tracer, not instrumented, NoopTracer}; plus an "
                 "expression for eval in 40% of cases; one case binding the reserved name `builtins`; non-trivial = >=2 operations",
         "samples": [{k: cases[1][k] for k in ("L", "G", "text", "instrument", "tracer", "expr")}], "traces_validated": validated,
         "distribution": {"raising": sum(1 for c in cases if c["raise_at"] is not None), "instrumented": sum(1 for c in cases if c["instrument"]),
-                         "with_eval": sum(1 for c in cases if c["expr"])},
+                         "with_eval": sum(1 for c in cases if c["expr"]),
+                         "global_declares_a_supplied_local": sum(1 for c in cases if any(n in c["L"] for n in c.get("gdecl", []))),
+                         "keys_that_cannot_be_parameters": sum(1 for c in cases if any(n in XNAMES.values() for n in c["L"]))},
         "failures": failures, "extra": {"model_impl_disagreements": len(mism)},
     }
 
